@@ -10,9 +10,98 @@
    exact per-rewrite correspondence (L1) and trace comparison of real before/after IR on the Coq
    machine (L2); their preservation theorems are not proved in this revision. *)
 From Snax Require Import Base.Prelude Model.AccIR Model.AccSem Model.AccInfer Model.AccDedup
-  Model.AccWeave
-  Proofs.AccSemProofs Proofs.AccInferProofs Proofs.AccDedupProofs Proofs.AccRenameProofs.
+  Model.AccWeave Model.AccRules
+  Proofs.AccSemProofs Proofs.AccInferProofs Proofs.AccDedupProofs Proofs.AccRenameProofs
+  Proofs.AccGhostProofs Proofs.AccRulesProofs.
 
+Definition c01_two_cfg_early : prog :=
+  mkProg [0%nat; 1%nat; 2%nat; 3%nat; 4%nat; 5%nat]
+   [SSetup 0%nat 6%nat None [(0%nat, 0%nat); (1%nat, 1%nat)]; SLaunch 0%nat 7%nat 6%nat []; SAwait 0%nat 7%nat;
+    SFor 8%nat 3%nat 4%nat 5%nat [(15%nat, 6%nat, (TState 0%nat))] [18%nat]
+      [SSetup 0%nat 16%nat (Some 15%nat) [(0%nat, 0%nat); (1%nat, 1%nat)]; SLaunch 0%nat 10%nat 16%nat []; SAwait 0%nat 10%nat;
+       SSetup 0%nat 17%nat (Some 16%nat) [(0%nat, 2%nat); (1%nat, 1%nat)]; SLaunch 0%nat 12%nat 17%nat []; SAwait 0%nat 12%nat]
+      [17%nat];
+    SSetup 0%nat 19%nat (Some 18%nat) [(0%nat, 2%nat); (1%nat, 1%nat)]; SLaunch 0%nat 14%nat 19%nat []; SAwait 0%nat 14%nat].
+
+Definition c01_two_cfg := c01_two_cfg_early.
+
+(* ===================== the rule theorems (second round) ==========================================
+   [rule_X_g] (Model/AccRules.v) is the rewrite exactly as the pass performs it — block-local rewrite
+   in context, new SSA values, replacement of the matched setup's out-state everywhere — with decidable
+   guards every SSA-valid well-threaded program satisfies; [X_hyp] are the decidable side conditions
+   (ghost typing [gok_prog] of the program before and after, the replaced out-state is never bound by
+   the machine; for simplify: the table is certified).  L1 evaluates on EVERY recorded real rewrite
+   that the guarded rule gives exactly the real result and that the side conditions hold
+   (merge_cert / hoist_cert / elide_g_cert / simplify_g_cert).
+   [trace_strong]: same launch/await/call sequence and at each launch EQUAL registers on all fields
+   (transitive; implies trace_sim_b).  All theorems: every program, context, oracle, argument list,
+   trip count, branch outcome. *)
+Theorem C01_simplify_rule :
+  forall T fresh tg p p', rule_simplify_g T fresh tg p = Some p' -> simplify_hyp T fresh tg p = true ->
+  forall orc args, trace_strong (run orc p args) (run orc p' args).
+Proof. intros T fresh tg p p' H Hh orc args. exact (rule_simplify_g_preserves T orc fresh tg p p' args H Hh). Qed.
+Print Assumptions C01_simplify_rule.
+
+Theorem C01_merge_rule :
+  forall G fresh tg p p', rule_merge_g fresh tg p = Some p' -> merge_hyp G fresh tg p = true ->
+  forall orc args, trace_strong (run orc p args) (run orc p' args).
+Proof. intros G fresh tg p p' H Hh orc args. exact (rule_merge_g_preserves G orc fresh tg p p' args H Hh). Qed.
+Print Assumptions C01_merge_rule.
+
+(* any input state of the removed setup: another setup's out-state, a loop-carried argument, an scf result *)
+Theorem C01_elide_rule :
+  forall G tg p p', rule_elide_g tg p = Some p' -> elide_hyp G tg p = true ->
+  forall orc args, trace_strong (run orc p args) (run orc p' args).
+Proof. intros G tg p p' H Hh orc args. exact (rule_elide_g_preserves G orc tg p p' args H Hh). Qed.
+Print Assumptions C01_elide_rule.
+
+(* with the repaired guards (F22) and: the statements between the scf.if and the setup are quiet for
+   the accelerator and do not re-bind the setup's operands *)
+Theorem C01_hoist_rule :
+  forall G fresh tg p p', rule_hoist_g G fresh tg p = Some p' -> hoist_hyp G fresh tg p = true ->
+  forall orc args, trace_strong (run orc p args) (run orc p' args).
+Proof. intros G fresh tg p p' H Hh orc args. exact (rule_hoist_g_preserves G orc fresh tg p p' args H Hh). Qed.
+Print Assumptions C01_hoist_rule.
+
+(* rules_preserve_star, for the four proved rules: any finite sequence of applications in any order
+   (driver-independent).  PullSetupOpsOutOfLoops is NOT a constructor of [step]: see below. *)
+Theorem C01_rules_preserve_star_partial :
+  forall p p', steps p p' -> forall orc args, trace_sim_b (run orc p args) (run orc p' args) = true.
+Proof. intros p p' H orc args. apply trace_strong_sim. exact (steps_preserve orc args p p' H). Qed.
+Print Assumptions C01_rules_preserve_star_partial.
+
+Example C01_star_nonvacuous : exists q, step c01_two_cfg_early q /\ q <> c01_two_cfg_early.
+Proof.
+  eexists. split.
+  - apply (St_simplify (tfun (ainfer c01_two_cfg_early)) [40%nat] 16%nat c01_two_cfg_early _ eq_refl). reflexivity.
+  - discriminate.
+Qed.
+Print Assumptions C01_star_nonvacuous.
+
+(* PullSetupOpsOutOfLoops.  Full statement (NOT proved):
+     pull_preserves : full_field_form p = true -> wf_prog T p = true -> rule_pull fresh tg p = Some p' ->
+                      forall orc args, trace_sim_b (run orc p args) (run orc p' args) = true.
+   What is missing: an invariant saying that every hoisted field is re-written by a full-field setup
+   before any launch observes it (on the zero-trip path: by the first setup after the loop; inside
+   the loop: by the matched first setup of the body), i.e. a "pending fields" simulation relation
+   that tolerates register differences on fields that are dead until re-written, through arbitrary
+   control flow.  Without [full_field_form] the statement is false: *)
+Definition c01_pull_before : prog :=
+  mkProg [0%nat; 1%nat; 2%nat; 3%nat; 4%nat; 5%nat; 6%nat]
+   [SSetup 0%nat 7%nat None [(2%nat, 0%nat)];
+    SFor 8%nat 4%nat 5%nat 6%nat [(13%nat, 7%nat, (TState 0%nat))] [15%nat]
+      [SSetup 0%nat 14%nat (Some 13%nat) [(2%nat, 1%nat)]; SLaunch 0%nat 10%nat 14%nat []; SAwait 0%nat 10%nat] [14%nat];
+    SSetup 0%nat 16%nat (Some 15%nat) [(0%nat, 2%nat); (1%nat, 3%nat)]; SLaunch 0%nat 12%nat 16%nat []; SAwait 0%nat 12%nat].
+
+Example C01_pull_refuted :
+  exists p', rule_pull [17%nat] 14%nat c01_pull_before = Some p' /\
+  full_field_form c01_pull_before = false /\
+  trace_sim_b (run (test_oracle 1) c01_pull_before [7; 9; 1; 2; 0; 0; 1])
+              (run (test_oracle 1) p' [7; 9; 1; 2; 0; 0; 1]) = false.
+Proof. eexists. split; [reflexivity|]. split; vm_compute; reflexivity. Qed.
+Print Assumptions C01_pull_refuted.
+
+(* ===================== first round: the structural-map forms ====================================== *)
 (* same launch/await/call sequence and, at each launch, equal registers on every field the
    original run has written since the last clobber (trace_sim_b); moreover the final register
    files are equal *)
@@ -87,15 +176,6 @@ Proof. intros T sel p orc args Hnd Hc. exact (simp_preserves_run T orc sel p arg
 Print Assumptions C01_simplify_preserves_unflagged_runs.
 
 (* non-vacuity: the woven two-configuration loop (notes/probe_c01_two_config_loop.mlir) *)
-Definition c01_two_cfg : prog :=
-  mkProg [0%nat; 1%nat; 2%nat; 3%nat; 4%nat; 5%nat]
-   [SSetup 0%nat 6%nat None [(0%nat, 0%nat); (1%nat, 1%nat)]; SLaunch 0%nat 7%nat 6%nat []; SAwait 0%nat 7%nat;
-    SFor 8%nat 3%nat 4%nat 5%nat [(15%nat, 6%nat, (TState 0%nat))] [18%nat]
-      [SSetup 0%nat 16%nat (Some 15%nat) [(0%nat, 0%nat); (1%nat, 1%nat)]; SLaunch 0%nat 10%nat 16%nat []; SAwait 0%nat 10%nat;
-       SSetup 0%nat 17%nat (Some 16%nat) [(0%nat, 2%nat); (1%nat, 1%nat)]; SLaunch 0%nat 12%nat 17%nat []; SAwait 0%nat 12%nat]
-      [17%nat];
-    SSetup 0%nat 19%nat (Some 18%nat) [(0%nat, 2%nat); (1%nat, 1%nat)]; SLaunch 0%nat 14%nat 19%nat []; SAwait 0%nat 14%nat].
-
 Example C01_nonvacuous :
   let T := tfun (ainfer c01_two_cfg) in
   wf_prog T c01_two_cfg = true /\ block_fields_nodup (p_body c01_two_cfg) = true /\
